@@ -15,10 +15,25 @@ What is NOT proved (held by the `contain` correspondence: failure injection at e
 reachable call + twin interpreter): that `Extends` holds for the real instruction set (it
 is exactly what the C04 balance discipline provides), and that globals equal those of the
 prefix run. Full statement kept visible as `C05_full_statement`.
+
+PART II (namespace `ZygoVerif.C05`, second half of this file) lifts the theorems from the
+small control model to the EXECUTABLE VM MODEL `Model/VM.lean` — the one that is compared
+with the Go interpreter instruction by instruction on every run (channels `eval`, `contain`):
+  * `vm_run_error_at_rest`, `vm_runLoop_error_at_rest`, `vm_text_error_at_rest` — sizes,
+    `curfunc`, pc after the error exit of `Run`/`runText`: no hypothesis whatsoever;
+  * `vm_scope_stack_object_restored` — the scope-stack object (lazy forces swap it): no
+    hypothesis; by induction over all 13 functions of the VM's mutual block;
+  * `vm_instr_effect`, `vm_instr_frame` — the stack effect of every non-re-entrant instruction
+    of the real instruction set, and the frame condition it gives;
+  * `vm_run_error_exact` — contents, under `Extends3` at the fault state;
+  * `…_counterexample` — where the unconditional statement is false;
+  * `defs_prefix` — nothing but the control state is rolled back;
+  * `VmErrorAtRestExact` — the full statement, with what is missing.
 -/
 import ZygoVerif.Model.Control
 import ZygoVerif.Generated.Control
 import ZygoVerif.Generated.ErrDiscard
+import ZygoVerif.Proofs.ContainSusp
 namespace ZygoVerif.Control
 
 variable {D S A F : Type}
@@ -138,3 +153,215 @@ syntax-quote generators, which made `(and 1 (let))` *succeed* with nil). -/
 theorem compile_errors_propagate : ZygoVerif.Generated.ErrDiscard.discardSites = [] := by decide
 
 end ZygoVerif.Control
+
+/-! # PART II — the executable VM model (`Model/VM.lean`) -/
+namespace ZygoVerif.C05
+open ZygoVerif.Core ZygoVerif.VM ZygoVerif.Contain
+
+/-! ## 1. The error exit of `Run` leaves the interpreter where the caller expects it -/
+
+/-- **vm_run_error_at_rest** — for EVERY state `s` (any call depth, any stacks, any code) and
+every fuel: if `Run` started in `s` ends with an error, then in the resulting state the data,
+scope and address stacks have exactly the sizes captured at entry, `curfunc` is the function
+of entry, the pc stands behind its code, and the stacks set aside by lazy forces are those of
+entry. The failure may have happened at any depth of re-entry (`callExpr → evalCallExpr →
+nested → run`, `callUser → builtin → applyFn/forceLazy → run`): all of that is inside the
+instruction whose error this loop answers. -/
+theorem vm_run_error_at_rest (fuel : Nat) (s s' : St) (h : (run fuel).run s = (.error .err, s')) :
+    s'.data.length = s.data.length ∧ s'.linear.length = s.linear.length ∧ s'.addr.length = s.addr.length ∧
+    s'.curfunc = s.curfunc ∧ s'.pc = curSize s' ∧ s'.suspended = s.suspended := by
+  have hz := run_error_sized fuel s s' h
+  exact ⟨hz.data, hz.linear, hz.addr, hz.curfunc, hz.pcEnd, run_error_susp fuel s s' h⟩
+
+/-- `Run`, whatever its outcome, leaves the loop-record stack as it was -/
+theorem vm_run_loopstack (fuel : Nat) (s : St) : ((run fuel).run s).2.loopstack = s.loopstack :=
+  run_loopstack fuel s
+
+/-- the same for the loop itself, for any captured control state `st` -/
+theorem vm_runLoop_error_at_rest (fuel : Nat) (st : CtlState) (s s' : St)
+    (h : (runLoop fuel st).run s = (.error .err, s')) :
+    s'.data.length = st.dataSize ∧ s'.linear.length = st.linearSize ∧ s'.addr.length = st.addrSize ∧
+    s'.curfunc = st.curfunc ∧ s'.pc = curSize s' ∧ s'.suspended.length ≤ st.susp := by
+  have hz := runLoop_error_sized fuel st s s' h
+  exact ⟨hz.data, hz.linear, hz.addr, hz.curfunc, hz.pcEnd, hz.susp⟩
+
+/-- **vm_text_error_at_rest** — top level: an interpreter at rest that is given a text which
+fails — at compile time (`cerr`) or anywhere during its execution (`err`) — is at rest
+afterwards: data stack empty, ONE scope, address stack empty, `curfunc = mainfunc`, pc behind
+the code of `mainfunc`; and it is usable (`alive`). Depths `0,1,0,0` in the harness vocabulary:
+`vm_text_error_depths` below. -/
+theorem vm_text_error_at_rest (fuel : Nat) (es : List Expr) (s s' : St) (cls v d : String) (tr : List String)
+    (alive : Bool) (h : AtRest s) (hr : runText fuel es s = (.done cls v tr d, s', alive))
+    (hcls : cls = "err" ∨ cls = "cerr") :
+    s'.data = [] ∧ s'.linear.length = 1 ∧ s'.addr = [] ∧ s'.curfunc = mainFn ∧ curSize s' ≤ s'.pc ∧
+    alive = true ∧ d = depths s' := by
+  obtain ⟨hz, ha, hd⟩ := runText_error_sized fuel es s s' cls v d tr alive h hr hcls
+  exact ⟨hz.data, hz.linear, hz.addr, hz.curfunc, hz.pcEnd, ha, hd⟩
+
+/-- **vm_text_error_depths** — in the harness vocabulary: after a failing text the four depths
+(data, scope, address, loop-record stack) are `0,1,0,0`. The fourth is the generator's: the VM
+never touches it and every successful compilation — at load time and at run time, for operands
+and lazy arguments — hands it back as it was (`genLS_compile`, all eight `compile…` functions;
+`allKeeps`, all 13 VM functions). -/
+theorem vm_text_error_depths (fuel : Nat) (es : List Expr) (s s' : St) (cls v d : String) (tr : List String)
+    (alive : Bool) (h : AtRest s) (hr : runText fuel es s = (.done cls v tr d, s', alive))
+    (hcls : cls = "err" ∨ cls = "cerr") : d = "0,1,0,0" ∧ s'.loopstack = [] := by
+  obtain ⟨hd, hl, ha, _, _, _, hdep⟩ := vm_text_error_at_rest fuel es s s' cls v d tr alive h hr hcls
+  have hls : s'.loopstack = [] := by
+    have := runText_loopstack fuel es s
+    rw [hr] at this
+    exact this.trans h.2.2.2.1
+  exact ⟨hdep.trans (depths_rest s' hd hl ha hls), hls⟩
+
+/-- the loop-record stack survives every text, whatever its outcome -/
+theorem vm_text_loopstack (fuel : Nat) (es : List Expr) (s : St) : (runText fuel es s).2.1.loopstack = s.loopstack :=
+  runText_loopstack fuel es s
+
+/-- a compile error runs nothing: the state is the state before (trace cleared) -/
+theorem vm_text_compile_error_runs_nothing (fuel : Nat) (es : List Expr) (s s' : St) (v d : String)
+    (tr : List String) (alive : Bool) (hr : runText fuel es s = (.done "cerr" v tr d, s', alive)) :
+    s' = { s with trace := [] } := by
+  rw [runText_eq] at hr
+  split at hr
+  · injection hr with _ h2
+    injection h2 with h2 _
+    exact h2.symm
+  · rename_i code t gs' hc
+    rcases hrun : (run fuel).run (loaded s gs' code) with ⟨r, s2⟩
+    rw [hrun] at hr
+    unfold finishRun at hr
+    rcases r with (_ | _ | _) | _ <;> · injection hr with h1 _; injection h1 with h1; exact absurd h1 (by decide)
+
+/-- non-vacuity: the fresh interpreter is at rest, and a failing text exists (an unbound
+symbol): its class is `err` and the theorem applies -/
+example : AtRest initSt := ⟨rfl, rfl, rfl, rfl, rfl, by decide⟩
+example : (match (runText 50 [.sym "nope"] initSt).1 with | .done cls _ _ d => (cls, d) | .dead => ("", ""))
+    = ("err", "0,1,0,0") := by decide +kernel
+
+/-! ## 2. The frame condition -/
+
+/-- **vm_scope_stack_object_restored** — every function of the VM (all 13 of the mutual block,
+every instruction, every fuel, every state, every outcome) leaves the scope stacks that were
+set aside at its entry set aside, in place. -/
+theorem vm_suspended_kept (base : Susp) (fuel : Nat) : AllKeeps base fuel := allKeeps base fuel
+
+/-- **vm_instr_effect** — the stack effect of each of the 25 instructions of the real
+instruction set that do not re-enter the VM, for every state and every outcome: at most
+`needD` data cells, `needL` scopes, `needA` return addresses of what was there are removed. -/
+theorem vm_instr_effect (f : Nat) (i : Instr) (s : St) (hs : simple i = true) :
+    Eff (needD i s) (needL i) (needA i) s ((exec (f + 1) i).run s).2 := exec_simple_eff f i s hs
+
+/-- **vm_instr_frame** — hence: stack cells deeper than the instruction's need are not touched.
+Unconditional special cases are instances: `pop` on an empty data stack is ignored
+(`needD .pop s = 0`), `push`, `dup`, `envToStack`, `addScope`, `createClosure`, jumps touch
+nothing below (`need = 0`), `ret` takes ONE return address. -/
+theorem vm_instr_frame (f : Nat) (i : Instr) (s : St) (hs : simple i = true) {bd bl ba} (hb : Above bd bl ba s)
+    (hd : bd.length + needD i s ≤ s.data.length) (hl : bl.length + needL i ≤ s.linear.length)
+    (ha : ba.length + needA i ≤ s.addr.length) : Above bd bl ba ((exec (f + 1) i).run s).2 :=
+  exec_simple_frame f i s hs hb hd hl ha
+
+example (s : St) (h : s.data = []) : needD .pop s = 0 := by simp [needD, h]
+example : ∀ s, needD .dup s = 0 ∧ needL .addScope = 0 ∧ needA .ret = 1 ∧ needL (.brk 3 2) = 2 := fun _ => ⟨rfl, rfl, rfl, rfl⟩
+
+/-- **vm_run_error_exact** — contents. Whenever `Run` returns an error there is a fault state
+`s₁` (the state in which an instruction of this run stopped with the error); the result has the
+tables of `s₁` (NOTHING of scopes, functions, heap, thunks, loop records is rolled back), the
+set-aside scope stacks of entry (unconditional), and — IF `s₁` still stands on the three
+stacks of entry — data, scope and address stacks EQUAL to those of entry. -/
+theorem vm_run_error_exact (fuel : Nat) (s s' : St) (h : (run fuel).run s = (.error .err, s')) :
+    ∃ s₁, FaultState fuel s s₁ ∧ SameStore s' s₁ ∧ s'.suspended = s.suspended ∧
+      (Extends3 s s₁ → s'.data = s.data ∧ s'.linear = s.linear ∧ s'.addr = s.addr) :=
+  run_error_exact' fuel s s' h
+
+/-- **vm_run_error_exact_of_invariant** — what a typing of states has to provide for
+exactness, and nothing more: a predicate that holds at entry, survives every instruction step
+(simple or re-entrant, whatever the outcome) and implies the frame condition. For the simple
+instructions `vm_instr_frame` reduces "survives the step" to "there is room for the need". -/
+theorem vm_run_error_exact_of_invariant (P : St → Prop) (s : St)
+    (hstep : ∀ f i s₀, P s₀ → P ((exec f i).run s₀).2) (hext : ∀ s₁, P s₁ → Extends3 s s₁)
+    (fuel : Nat) (s' : St) (hp : P s) (h : (run fuel).run s = (.error .err, s')) :
+    s'.data = s.data ∧ s'.linear = s.linear ∧ s'.addr = s.addr ∧ s'.suspended = s.suspended :=
+  run_error_exact_of_invariant P s hstep hext fuel s' hp h
+
+/-- non-vacuity of `vm_run_error_exact_of_invariant`: for an entry state with empty stacks the
+trivial predicate is such an invariant… as far as data and address stacks go the hypothesis
+`Extends3` is then automatic; here the instance with all three stacks empty -/
+example (s : St) (hd : s.data = []) (hl : s.linear = []) (ha : s.addr = []) : ∀ s₁, True → Extends3 s s₁ :=
+  fun s₁ _ => ⟨by rw [hd]; exact List.nil_suffix, by rw [hl]; exact List.nil_suffix, by rw [ha]; exact List.nil_suffix⟩
+
+/-- at the top level data and address stacks are exact for free (they are empty); the global
+scope is back at the bottom of the scope stack iff it was still there at the fault -/
+theorem vm_text_error_global_scope (fuel : Nat) (s₀ s₁ s' : St) (hl : s₀.linear = [some 0])
+    (hf : FaultState fuel s₀ s₁) (hs' : s' = park (restoreSt (captureOf s₀) s₁))
+    (hext : [some 0] <:+ linAt (captureOf s₀) s₁) : s'.linear = [some 0] :=
+  runText_error_linear fuel s₀ s₁ s' hl hf hs' hext
+
+/-- **vm_extends_counterexample** — the unconditional statement "on the error exit the stacks
+EQUAL the captured ones" is FALSE for the real instruction set: unbalanced code (`pop; ret` on a
+data stack `[9]`; `removeScope; ret` at top level) ends with the captured SIZES but nil cells —
+`TruncateToSize` grows a stack with nil entries. -/
+theorem vm_extends_counterexample :
+    (isErr ((run 5).run (withMain [.pop, .ret] [some (.int 9)])).1 = true
+      ∧ ((run 5).run (withMain [.pop, .ret] [some (.int 9)])).2.data = [none])
+    ∧ (isErr ((run 5).run (withMain [.removeScope, .ret] [])).1 = true
+      ∧ ((run 5).run (withMain [.removeScope, .ret] [])).2.linear = [none]) :=
+  ⟨pad_counterexample, pad_scope_counterexample⟩
+
+/-- **vm_fits_counterexample** — and sizes that fit (C01's `Fits`: no padding) are not enough
+for the contents: `pop; push 7; ret` replaces the caller's cell. -/
+theorem vm_fits_counterexample :
+    isErr ((run 5).run (withMain [.pop, .push (.int 7), .ret] [some (.int 9)])).1 = true
+    ∧ ((run 5).run (withMain [.pop, .push (.int 7), .ret] [some (.int 9)])).2.data = [some (.int 7)] :=
+  fits_not_enough_counterexample
+
+/-- The full statement on the VM model: every text that fails, given to an interpreter that
+served any history of texts before, leaves it at rest with the GLOBAL SCOPE in place. -/
+inductive Served : St → Prop where
+  | fresh : Served initSt
+  | text (fuel : Nat) (es : List Expr) (s s' : St) (o : Outcome) : Served s → runText fuel es s = (o, s', true) → Served s'
+
+def VmErrorAtRestExact : Prop :=
+  ∀ (fuel : Nat) (es : List Expr) (s s' : St) (cls v d : String) (tr : List String) (alive : Bool),
+    Served s → runText fuel es s = (.done cls v tr d, s', alive) → (cls = "err" ∨ cls = "cerr") →
+    s'.data = [] ∧ s'.linear = [some 0] ∧ s'.addr = [] ∧ s'.curfunc = mainFn ∧ curSize s' ≤ s'.pc
+
+/-- **vm_error_at_rest_exact_partial** — proved: everything but the CONTENT of the one scope
+cell, for every state at rest (served or not). MISSING for `VmErrorAtRestExact`: that the global
+scope is still at the bottom of the scope stack in the fault state (`vm_text_error_global_scope`
+then gives `linear = [some 0]`). That is the frame condition for the code the generator emits;
+it needs (1) `AtRest` for every `Served` state (C04's `RunAtRest`, open there), (2) the
+refinement "every `VM.exec` step of a balanced listing has room for its need" — `vm_instr_effect`
+is the VM half of it, C04's `checker_sound` the abstract half; the simulation between them and
+the induction through the re-entrant instructions (`callExpr`, `callArr`) are not done —
+(3) `GenBalanced` for `for`/function bodies (partial in C04). Held meanwhile by channel
+`contain` on the real interpreter AND on this model (records `D[…]`, follow-up battery). -/
+theorem vm_error_at_rest_exact_partial (fuel : Nat) (es : List Expr) (s s' : St) (cls v d : String)
+    (tr : List String) (alive : Bool) (h : AtRest s) (hr : runText fuel es s = (.done cls v tr d, s', alive))
+    (hcls : cls = "err" ∨ cls = "cerr") :
+    s'.data = [] ∧ s'.linear.length = 1 ∧ s'.addr = [] ∧ s'.curfunc = mainFn ∧ curSize s' ≤ s'.pc := by
+  obtain ⟨a, b, c, d', e, _, _⟩ := vm_text_error_at_rest fuel es s s' cls v d tr alive h hr hcls
+  exact ⟨a, b, c, d', e⟩
+
+/-! ## 3. What is NOT rolled back -/
+
+/-- **defs_prefix** — after a failed `Run` every table of the interpreter (scope cells — hence
+every global and every definition completed before the failure —, function objects, loop
+records, thunks with their memoised values, the data heap, the trace) is EXACTLY as the
+failing instruction left it: the state of an interpreter that executed the part of the
+program that ran before the failure, and nothing else. Only the control state is reset. -/
+theorem defs_prefix (fuel : Nat) (s s' : St) (h : (run fuel).run s = (.error .err, s')) :
+    ∃ s₁, FaultState fuel s s₁ ∧ s'.scopes = s₁.scopes ∧ s'.fns = s₁.fns ∧ s'.heap = s₁.heap ∧
+      s'.lazies = s₁.lazies ∧ s'.loops = s₁.loops ∧ s'.loopstack = s₁.loopstack ∧ s'.trace = s₁.trace := by
+  obtain ⟨s1, hf, hs, _, _⟩ := run_error_exact' fuel s s' h
+  exact ⟨s1, hf, hs.scopes, hs.fns, hs.heap, hs.lazies, hs.loops, hs.loopstack, hs.trace⟩
+
+/-- **twin** — later evaluations depend on the state only: an interpreter whose state equals
+that of a twin (up to the trace, which every evaluation clears) answers every later text as
+the twin does. Together with `vm_run_error_exact`/`defs_prefix`: the interpreter after the
+failure IS the fault state with the control part at rest. -/
+theorem twin (fuel : Nat) (es : List Expr) (s : St) (tr : List String) :
+    runText fuel es { s with trace := tr } = runText fuel es s := by
+  unfold runText
+  rfl
+
+end ZygoVerif.C05
